@@ -5,4 +5,4 @@ Require Import ExtrOcamlBasic.
 From OFGA Require Import Check.V1 Query.ListUsers.
 Extraction Language OCaml.
 Extraction "c06_model.ml" lfp atomval stratified check_top valid_for_read final_levels
-  list_users list_users_nkeys validate lu_union lu_inter lu_excl resolve den.
+  list_users list_users_nkeys list_users_may validate lu_union lu_inter lu_excl resolve den.
